@@ -305,6 +305,15 @@ impl<'r> World<'r> {
                         continue;
                     }
                     if let Some(o) = guarded_opt(|| pc.call_kept(&addr, &t.hid, &args, funds.as_deref(), &sender, new_code)) {
+                        // reach: calls through a kept handle, and those made after the contract's code
+                        // was replaced under the handle (migration to another code id)
+                        let replaced = c.code != i;
+                        bb::with(|s| {
+                            *s.fired.entry("op_call_through_kept_proxy").or_insert(0) += 1;
+                            if replaced {
+                                *s.fired.entry("op_kept_proxy_after_code_replaced").or_insert(0) += 1;
+                            }
+                        });
                         r = Some(o);
                         break;
                     }
